@@ -62,7 +62,7 @@ Lemma tie_precedence : tie_precedence_b = true. Proof. vm_compute. reflexivity. 
 
 (* 3. binding powers used by prefix operators and by the projections that start a primary *)
 Definition model_prefix_powers : list (string * string) :=
-  [("AddToken", "expression:precedence(AddToken)");
+  [("AddToken", "expression:precedence(MultiplyToken)");
    ("ArrayWildcardToken", "projection:projectionPrecedence");
    ("AsteriskToken", "projection:projectionPrecedence");
    ("FilterToken", "projection:precedence(FilterToken)");
@@ -70,7 +70,7 @@ Definition model_prefix_powers : list (string * string) :=
    ("NotToken", "expression:precedence(NotToken)");
    ("OpenParenToken", "expression:1");
    ("OpenSqBraceToken", "projection:projectionPrecedence");
-   ("SubtractToken", "expression:precedence(SubtractToken)")].
+   ("SubtractToken", "expression:precedence(MultiplyToken)")].
 Definition tie_prefix_b : bool :=
   slist_eqb (map (fun p => fst p ++ "=" ++ snd p) gen_prefix_powers)
             (map (fun p => fst p ++ "=" ++ snd p) model_prefix_powers).
